@@ -162,7 +162,7 @@ static int run_case(const json &c, long &nlines, std::string &note) {
 			Pipe p2r, r2v, v2r, r2p;
 			PipeBuf pb(&r2p, &p2r), vb(&r2v, &v2r);
 			std::iostream pio(&pb), vio(&vb);
-			long sent = 0; long target = c.value("line", -1L);
+			long sent = 0; long target = c.value("line", -1L); bool cut = false;
 			if (c.contains("line") && target < 0) {          // counted from the end: an honest session tells how many values there are
 				json dry(c); dry.erase("line"); dry.erase("mut"); long nl = 0; std::string nt; run_case(dry, nl, nt);
 				target = nl + target; if (target < 0) note = "n/a";
@@ -189,7 +189,7 @@ static int run_case(const json &c, long &nlines, std::string &note) {
 				std::string ln; int ch;
 				while ((ch = p2r.get()) != EOF) {
 					if (ch != '\n') { ln.push_back((char)ch); continue; }
-					if (sent == target && mut != "none") { if (mut == "trunc") { break; } if (!mutate_line(ln, mut)) note = "n/a"; }
+					if (sent == target && mut != "none") { if (mut == "trunc") { cut = true; break; } if (!mutate_line(ln, mut)) note = "n/a"; }
 					ln.push_back('\n'); r2v.put(ln.data(), ln.size()); ln.clear(); sent++;
 				}
 				r2v.close();
@@ -213,7 +213,7 @@ static int run_case(const json &c, long &nlines, std::string &note) {
 			prover.join(); relay_pv.join(); relay_vp.join();
 			nlines = sent;
 			if (mut != "none" && target >= sent && mut != "trunc") note = "n/a";      // the verifier stopped before that line
-			if (mut == "trunc" && target >= sent) note = "n/a";      // nothing was cut off: the transcript has only `sent` lines
+			if (mut == "trunc" && !cut) note = "n/a";      // nothing was cut off: the prover sent no line with that number
 			verdict = vexc ? 2 : (r ? 1 : 0);
 			(void)prover_exc;
 		}
